@@ -278,6 +278,12 @@ class Program:
         unrename.apply({m: t[3] for m, t in parsed.items()}, self.renames)
         self.inlined_constants = unrename.inline_new_constants({m: t[3] for m, t in parsed.items()}, PKG) \
             if os.environ.get("SA_NO_UNRENAME") != "1" else []
+        self.unextracted = ([], [])
+        if os.environ.get("SA_NO_UNRENAME") != "1":
+            ref_ids = unrename.reference_identifiers(PKG)
+            if ref_ids is not None:
+                from . import unextract
+                self.unextracted = unextract.unextract({m: t[3] for m, t in parsed.items()}, ref_ids)
         unrename.lower_idioms({m: t[3] for m, t in parsed.items()})
         for mod, (path, rel, src, tree) in parsed.items():
             self.modules[mod] = Module(mod, path, rel, src, tree)
